@@ -152,7 +152,10 @@ def run(prog: Program, col: Collector, tier: str, refs: Optional[Refs] = None, c
         carrier = norm(mods[0].left)
         div_t = norm(divs[0].targets[0]) if isinstance(divs[0], ast.Assign) else norm(divs[0].target)
         size_ok = norm(mods[0].right) == (norm(divs[0].value.right) if isinstance(divs[0], ast.Assign) and isinstance(divs[0].value, ast.BinOp) else norm(divs[0].value))
-        ok = mod_stmt.lineno < divs[0].lineno and carrier == div_t and size_ok
+        # the quotient is taken of the carrier itself (not of the original flat draw: the third and later digits would be wrong)
+        dv = divs[0].value if isinstance(divs[0], ast.Assign) else None
+        numer_ok = isinstance(divs[0], ast.AugAssign) or (isinstance(dv, ast.BinOp) and norm(dv.left) == carrier)
+        ok = mod_stmt.lineno < divs[0].lineno and carrier == div_t and size_ok and numer_ok
     col.check(ok, f"{ts.fq}::digit extraction", "point = carrier % size, then carrier //= size, with the same size",
               "the digit of a sampled input is not `carrier % size` taken BEFORE `carrier //= size` with the size of that input: the decoded points are not the coordinates of the flat index",
               ts.loc(lp))
